@@ -198,7 +198,11 @@ class Session:
             self.lines.append(f'{m} tape {_impl.fmt_arg(tape)}')
             self.expect.append(None)
         self.lines.append(fmt_line(m, name, args))
-        if self.full and (m in self.impl.mgr or m in self.impl.amgr):
+        if self.full and name == 'bdd_to_mdd' and args[0] in self.impl.mmgr:
+            self.expect.append(res + '\t' + self.impl.digest(args[0]) + ' | ' + self.impl.digest(m))
+        elif self.full and name == 'bdd_to_mdd':
+            self.expect.append(None)      # failed conversions: only later states are compared
+        elif self.full and (m in self.impl.mgr or m in self.impl.amgr or m in self.impl.mmgr):
             self.expect.append(res + '\t' + self.impl.digest(m))
         else:
             self.expect.append(res)
